@@ -80,6 +80,15 @@ def strategy(tier):
             par["which"] = draw(st.integers(0, k - 1))
             par["salt"] = draw(st.integers(0, 10**6))
         par["as_list"] = draw(st.booleans())
+        # dict input with sympy monomial keys (1, x, x*y, x**2*y ...) instead of order tuples
+        par["as_monomial"] = draw(st.integers(0, 2)) == 0
+        if par["as_monomial"] and k >= 2 and p["repr"] != "sympy":
+            # ... with a product key that contains a power (x**2*y), at an order that is reached
+            terms = dict(p["terms"])
+            first = sorted(s_ for s_ in terms if sum(order_key(s_)) == 1)
+            o = [2, 1] + [0] * (k - 2) if draw(st.booleans()) else [0] * (k - 2) + [1, 2]
+            terms.setdefault(",".join(map(str, o)), terms[first[0]])
+            p = dict(p, terms=terms, K=max(p["K"], 3))
         return {"problem": p, "relation": rel, "par": par}
 
     return cases()
@@ -240,6 +249,30 @@ def _as_list(p):
     return [ham[(0,) * k]] + [ham[u] for u in units], kw
 
 
+def _as_monomial(p):
+    import sympy
+
+    from vlib.gen_matrix import library_input
+
+    ham, kw = library_input(p)
+    if not isinstance(ham, dict) or not all(isinstance(o, tuple) for o in ham):
+        return None
+    k = p["n_params"]
+    syms = sympy.symbols("a_0:%d" % k)  # the library orders the symbols of monomial keys by name
+    used = set()
+    out = {}
+    for o, M in ham.items():
+        mono = sympy.Integer(1)
+        for s_, e_ in zip(syms, o):
+            mono = mono * s_**e_
+            if e_:
+                used.add(s_)
+        out[mono] = M
+    if len(used) != k:
+        return None
+    return out, kw
+
+
 def check_case(case, enforce_all=False):
     out = Outcome()
     p = case["problem"]
@@ -270,6 +303,11 @@ def check_case(case, enforce_all=False):
         if a is not None and b is not None:
             in0, in1 = a, b
             out.labels.append("list-input")
+    if in0 == (None, None) and case["par"].get("as_monomial"):
+        a, b = _as_monomial(p), _as_monomial(q)
+        if a is not None and b is not None:
+            in0, in1 = a, b
+            out.labels.append("monomial-key-input")
     ctx0, res0 = mm.outputs(p, out, "original problem", *in0)
     if res0 is None:
         return out
